@@ -1,6 +1,7 @@
 package main
 
 import (
+	"bytes"
 	"encoding/json"
 	"fmt"
 	"io"
@@ -140,6 +141,42 @@ func c14Render(p *Program, knobs map[string]int, mainSrc string) (Obs, *simrt.Wo
 	return observe(nil, func() (string, error) { return e.Render(p.Main, BuildCtx(p.Ctx, 0)) }), w
 }
 
+type plainWriter struct{ b []byte }
+
+func (p *plainWriter) Write(x []byte) (int, error) { p.b = append(p.b, x...); return len(x), nil }
+
+func c14RenderTo(p *Program, flavour string) (Obs, *simrt.World) {
+	w := simrt.Begin(simrt.Config{Seed: 14, PoolPolicy: simrt.PoolLIFO, MapOrder: simrt.OrderSorted, ClockStart: 1_700_000_000e9, ClockStep: 1e6})
+	defer simrt.End()
+	twig.SetDebugWriter(io.Discard)
+	saved := twig.VerifSwapGlobals(nil)
+	defer twig.VerifSwapGlobals(saved)
+	e := twig.New()
+	installSandbox(e)
+	installGlobals(e)
+	for _, t := range p.Templates {
+		e.RegisterString(t.Name, t.Src())
+	}
+	run := func() (string, error) {
+		if flavour == "plain" {
+			var pw plainWriter
+			err := e.RenderTo(&pw, p.Main, BuildCtx(p.Ctx, 0))
+			if err != nil {
+				return "", err
+			}
+			return string(pw.b), nil
+		}
+		var bb bytes.Buffer
+		err := e.RenderTo(&bb, p.Main, BuildCtx(p.Ctx, 0))
+		if err != nil {
+			return "", err
+		}
+		return bb.String(), nil
+	}
+	observe(nil, run)
+	return observe(nil, run), w
+}
+
 func (propC14) Run(scI interface{}) *Outcome {
 	sc := scI.(*c14Sc)
 	o := &Outcome{Probes: map[string]int64{}}
@@ -169,6 +206,21 @@ func (propC14) Run(scI interface{}) *Outcome {
 			o.Viol = &Violation{Oracle: "all-knob-vectors-equal", Sig: "result depends on size constants " + strings.Join(ks, "+") + fmt.Sprintf(" (%s vs %s)", base.Class, got.Class),
 				Detail: fmt.Sprintf("main template %q\n shipped constants: %s\n with %v: %s", mainSrc, base, kv, got)}
 			return o
+		}
+	}
+	// writer flavours: Render, RenderTo into a bytes.Buffer (has WriteString) and RenderTo into a plain io.Writer
+	// (pooled-buffer fallback) must produce the same bytes, also for long outputs
+	if base.Class == "ok" {
+		for _, flavour := range []string{"buffer", "plain"} {
+			got, w := c14RenderTo(sc.Prog, flavour)
+			o.Probes["writer_flavours_compared"]++
+			fp = simrt.Mix(fp, w.Fingerprint(), strHash(got.Key()))
+			if got.Key() != base.Key() {
+				o.FP = fp
+				o.Viol = &Violation{Oracle: "writer-flavours-equal", Sig: "RenderTo(" + flavour + " writer) differs from Render (" + got.Class + ")",
+					Detail: fmt.Sprintf("main template %q\n Render:   %s\n RenderTo: %s", tail(mainSrc, 400), tail(base.Out, 300), tail(got.Out, 300)+" "+got.Err)}
+				return o
+			}
 		}
 	}
 	// seam-fidelity leg: real padding
